@@ -255,6 +255,29 @@ func zooCases(thorough bool) []zooCase {
 		}
 		out = append(out, zooCase{name: "consecutive overflowing blob rows", stmts: stmts})
 	}
+	// --- wide tables: the record header's own length takes one byte up to 126 one-byte serial types and two from 127 on
+	for _, n := range []int{126, 127, 134, 200} {
+		cols := make([]string, n)
+		for i := range cols {
+			cols[i] = fmt.Sprintf("c%d", i)
+		}
+		stmts := []string{"CREATE TABLE z (" + strings.Join(cols, ", ") + ")", "CREATE INDEX zw ON z (c3, c0)"}
+		for row := 0; row < 5; row++ {
+			vals := make([]string, n)
+			for i := range vals {
+				switch v := (i*7 + row*3) % 11; {
+				case v == 10:
+					vals[i] = "NULL"
+				case v == 9:
+					vals[i] = fmt.Sprintf("'t%d'", i%10)
+				default:
+					vals[i] = fmt.Sprint(v) // 0 and 1 have no body bytes
+				}
+			}
+			stmts = append(stmts, "INSERT INTO z VALUES ("+strings.Join(vals, ", ")+")")
+		}
+		out = append(out, zooCase{name: fmt.Sprintf("wide table, %d columns", n), stmts: stmts})
+	}
 	// --- a WITHOUT ROWID table with a DESC primary key and NO other index (as a legacy-format file the DESC is ignored)
 	{
 		stmts := []string{"CREATE TABLE z (a, b TEXT, c, d, PRIMARY KEY (b DESC, a)) WITHOUT ROWID"}
@@ -312,15 +335,31 @@ func zooRun(r *ev.Run, which string) {
 		if ci == 7 {
 			r.Sample(map[string]interface{}{"family": "schema-zoo", "case": zc.name, "statements": clip(zc.stmts)})
 		}
-		switch which {
-		case "C01", "C02":
-			fwCompare(r, which, l, img, art)
-		case "C03":
-			zooEq(r, l, img, zc, art)
-		case "C04":
-			zooRowid(r, l, img, zc, art)
-		case "C19":
-			zooDriver(r, l, img, zc, art)
+		imgs := [][]byte{img}
+		arts := []map[string]interface{}{art}
+		if zc.legacy && len(img) >= 48 && binary.BigEndian.Uint32(img[44:48]) == 3 {
+			// the same file as schema format 2 (what SQLite < 3.40 leaves after an ADD COLUMN without a default):
+			// SQLite ignores DESC for every format below 4, so the connection's answers stay the reference
+			img2 := append([]byte{}, img...)
+			binary.BigEndian.PutUint32(img2[44:48], 2)
+			imgs = append(imgs, img2)
+			arts = append(arts, map[string]interface{}{"family": "schema-zoo", "case": zc.name + " (header schema format set to 2)", "create": zc.stmts[0]})
+			r.Eval(1)
+			r.Validated(1)
+			r.StateBytes(img2)
+		}
+		for i, img := range imgs {
+			art := arts[i]
+			switch which {
+			case "C01", "C02":
+				fwCompare(r, which, l, img, art)
+			case "C03":
+				zooEq(r, l, img, zc, art)
+			case "C04":
+				zooRowid(r, l, img, zc, art)
+			case "C19":
+				zooDriver(r, l, img, zc, art)
+			}
 		}
 	})
 }
